@@ -60,7 +60,25 @@ class Meta:
         return "Meta(" + ", ".join([n(x) for x in self.a] + [f"{k}={n(v)}" for k, v in sorted(self.k.items())]) + ")"
 
 
+_T = typing.TypeVar("_T")
+
+
+class _UserGeneric(typing.Generic[_T]):
+    pass
+
+
+class _Namespace:
+    """A module-like object whose attributes are NAMED like builtin generics but are something else: attribute access is not a
+    builtin name and must be left alone by the rewriting."""
+
+
+ns = _Namespace()
+for _n in ("list", "dict", "set", "tuple", "Pattern", "frozenset"):
+    setattr(ns, _n, type(f"My_{_n}", (_UserGeneric,), {}))
+ns.sub = ns
+
 NS = {
+    "ns": ns,
     "Meta": Meta,
     "typing": typing, "t": typing, "collections": collections, "datetime": datetime, "re": re, "Literal": typing.Literal,
     "Annotated": typing.Annotated, "Callable": typing.Callable, "Optional": typing.Optional, "Union": typing.Union,
@@ -89,7 +107,7 @@ def gen(rng, depth, in_union=False):
     if r < 0.30:
         return gen(rng, depth - 1, True)
     k = rng.choice(["list", "dict", "set", "tuplevar", "tuplefix", "typing.List", "typing.Dict", "Optional", "Union", "Literal",
-                    "Callable", "Callable...", "Annotated", "AnnotatedCall", "type", "Mapping", "Sequence", "Pattern", "Bar", "frozenset",
+                    "Callable", "Callable...", "Annotated", "AnnotatedCall", "attr", "type", "Mapping", "Sequence", "Pattern", "Bar", "frozenset",
                     "collections.abc.Mapping", "paren"])
     g = lambda: gen(rng, depth - 1)  # noqa: E731
     if k == "list":
@@ -121,6 +139,9 @@ def gen(rng, depth, in_union=False):
         return f"typing.Callable[..., {g()}]"
     if k == "Annotated":
         return f"Annotated[{g()}, {rng.choice(['1', chr(34) + 'meta|x' + chr(34), chr(39) + 'list[int]' + chr(39)])}]"
+    if k == "attr":
+        # an attribute that is merely called like a builtin generic
+        return f"{rng.choice(['ns', 'ns.sub'])}.{rng.choice(['list', 'dict', 'set', 'tuple', 'Pattern'])}[{g()}]"
     if k == "AnnotatedCall":
         # metadata built by a call whose positional AND keyword arguments hold annotations
         return f"Annotated[{g()}, Meta({g()}, alt={g()}{', of=' + g() if rng.random() < 0.4 else ''})]"
